@@ -186,7 +186,7 @@ fn k_shader_clip_mask_blitter_span() {
 }
 
 // ---------------------------------------------------------------- sources (C03 #5, C07 #9, C18 #3)
-// @ob id=K.choose_shader_solid props=C03,C07,C18 kind=complete tier=quick timeout=600 fns=choose_shader,SolidShader::shade_span
+// @ob id=K.choose_shader_solid props=C03,C07,C18 kind=bounded:count<=3 tier=quick timeout=600 fns=choose_shader,SolidShader::shade_span
 // @+ desc="choose_shader, solid source, EVERY f32 global alpha (NaN, negative, > 1, infinite included) and every colour: never panics; the span colour is alpha_mul(c, a256(A)) with A = round(alpha*255) for alpha in [0,1], A = 0 for NaN/negative, A = 255 for alpha >= 1; premultiplied colours stay premultiplied; shade_span writes exactly `count` entries"
 #[kani::proof]
 #[kani::unwind(5)]
